@@ -408,7 +408,9 @@ def check(prop, tier, seed, only=None, only_bin=None):
     if cfg.get("src_tables"):
         grc, gout = sh([sys.executable, os.path.join(ROOT, "tools", "gen_tables.py")], env={"TEVEC_REPO": REPO})
         gen_note = gout.strip()
-        targets.append("Proofs/SrcTablesOk.vo")
+        # which conformance file(s) re-check the generated tables for this property (default: the tea-time tables;
+        # C05 / C06 name Proofs/SrcTablesRoll.vo, the rolling-family min_periods shapes)
+        targets.extend(cfg.get("src_tables_proofs", ["Proofs/SrcTablesOk.vo"]))
         if grc != 0:
             bad.append("tools/gen_tables.py could not translate the source tables: " + gout.strip()[-300:])
     rc, out = make_targets(targets)
